@@ -72,3 +72,61 @@ func VerifC08Session() {
 	}
 	vCover("c08-session-end")
 }
+
+// VerifC08ResumeFlow: real clients on the real MemoryBackend: a QoS 1/2 message in flight when
+// the connection is lost stays recorded, is retransmitted (duplicate) on the resumed connection,
+// new messages forwarded afterwards get their own ids and records, and each acknowledgement
+// removes exactly its own record.
+func VerifC08ResumeFlow() {
+	be := newRecBackend()
+	q := packet.QOS(1 + vChoice("qos", 2))
+	c1, conn1 := startClient(be, mkConnect("c", false, nil), false)
+	s := packet.NewSubscribe()
+	s.ID = 1
+	s.Subscriptions = []packet.Subscription{{Topic: "x", QOS: 2}}
+	conn1.in <- s
+	vQuiesce()
+	pub, _ := mkClient(be.MemoryBackend, "p", true)
+	vAssert(be.MemoryBackend.Publish(pub, &packet.Message{Topic: "x", Payload: []byte{1}, QOS: q}, nil) == nil, "publish m1")
+	vQuiesce()
+	vAssert(countType(conn1, packet.PUBLISH) == 1, "m1 in flight")
+	m1 := conn1.sentAt(conn1.sentCount() - 1).(*packet.Publish)
+	vAssert(!m1.Dup, "first transmission is not flagged duplicate")
+	close(conn1.in)
+	vQuiesce()
+	vAssert(chanClosed(c1.Closed()), "first connection gone")
+	// resume
+	c2, conn2 := startClient(be, mkConnect("c", false, nil), false)
+	ack, _ := conn2.sentAt(0).(*packet.Connack)
+	vAssert(ack != nil && ack.SessionPresent, "session present on resume")
+	vAssert(conn2.sentCount() == 2, "m1 retransmitted")
+	r1, ok := conn2.sentAt(1).(*packet.Publish)
+	vAssert(ok && r1.Dup && r1.ID == m1.ID && r1.Message.QOS == q, "retransmission: same id, flagged duplicate, same QoS")
+	// a new message on the resumed connection
+	vAssert(be.MemoryBackend.Publish(pub, &packet.Message{Topic: "x", Payload: []byte{2}, QOS: q}, nil) == nil, "publish m2")
+	vQuiesce()
+	vAssert(conn2.sentCount() == 3, "m2 forwarded")
+	m2, ok2 := conn2.sentAt(2).(*packet.Publish)
+	vAssert(ok2 && !m2.Dup, "m2 is a new delivery")
+	if ok && ok2 {
+		vAssert(m2.ID != r1.ID, "a new message never reuses the packet id of an unacknowledged one")
+		out, _ := c2.session.AllPackets(1)
+		vAssert(len(out) == 2, "both unacknowledged messages are recorded")
+		// acknowledge m1 only
+		if q == 1 {
+			conn2.in <- &packet.Puback{ID: r1.ID}
+		} else {
+			conn2.in <- &packet.Pubrec{ID: r1.ID}
+			vQuiesce()
+			conn2.in <- &packet.Pubcomp{ID: r1.ID}
+		}
+		vQuiesce()
+		out, _ = c2.session.AllPackets(1)
+		vAssert(len(out) == 1, "the acknowledgement removes exactly its own record")
+		if len(out) == 1 {
+			id, _ := packet.GetID(out[0])
+			vAssert(id == m2.ID, "m2 stays recorded until it is acknowledged itself")
+		}
+	}
+	vCover("c08-resumeflow-end")
+}
